@@ -13,7 +13,7 @@ Theorem C02_exact_running : forall c t ct, checkk KRun c t ct = true ->
   forall s, reach c t s ->
   forall lasti st tr, In (true, lasti, st, tr) (obs c s) ->
   trickery c t true lasti st = TOk (expected tr).
-Proof. intros c t ct Hc s Hr lasti st tr Hin. exact (analysis_exact KRun c t ct Hc s Hr true lasti st tr Hin eq_refl). Qed.
+Proof. intros c t ct Hc s Hr lasti st tr Hin. exact (analysis_exact KRun c t ct Hc s Hr true lasti st tr Hin (or_intror (conj eq_refl eq_refl))). Qed.
 Print Assumptions C02_exact_running.
 
 (* every slot the analysis reads for a running frame lies below the trim depth and holds the
